@@ -62,7 +62,7 @@ def userScopeBase : Val :=
 
 def codecEnv : CodecEnv := { userScope := Gen.V2.UserScope, userScopeBase := userScopeBase }
 
-def decodeJson (t : Ty) (base : Val) (j : Json) : DRes Val := liftRes (unmarshal codecEnv fuel t j base)
+def decodeJson (t : Ty) (base : Val) (j : Json) : DRes Val := liftRes (unmarshal codecEnv decFuel t j base)
 
 /-! ### header -/
 structure Header where
